@@ -24,7 +24,7 @@ MANIFEST = {
             "mode) x {cell, no cell} x {time, no time} are written through the real file objects and compared after close "
             "with the one-shot file (frames, times, cells, loaded with mdtraj). One ragged write of each kind at every "
             "position of every partition must raise and leave a file holding exactly the accepted frames. For HDF5, NetCDF, "
-            "DCD, XTC every (partition, k) crash point after write+flush is executed in a forked child that SIGKILLs itself; "
+            "DCD, XTC and HDF5 append mode every (partition, k) crash point after write+flush is executed in a forked child that SIGKILLs itself; "
             "the parent must load exactly the k-prefix. Exhaustive over the stated histories and crash points.",
     "note": "Process kill, not power loss (page cache survives). DCD has no flush(): judged after write() returns, as its "
             "reporter uses it. Crash points before the flush are recorded only. OpenMM reporters are reached through the file "
@@ -250,7 +250,9 @@ def incremental_job(args):
 def crash_job(args):
     fmt, cell, ns, seed, scratch = args
     from vlib.iso import isolated
-    d = os.path.join(scratch, "k_%s_%s" % (fmt, cell))
+    append = fmt.endswith("-append")       # HDF5 append mode: an earlier session wrote and closed the first block
+    fmt = fmt.split("-")[0]
+    d = os.path.join(scratch, "k_%s_%s_%s" % (fmt, cell, append))
     shutil.rmtree(d, ignore_errors=True)
     os.makedirs(d)
     viol = []
@@ -262,17 +264,26 @@ def crash_job(args):
             traj = _traj(4, cell, seed)[:n]
             top = traj.topology
             for blocks in compositions(n):
-                for k in range(len(blocks)):
+                if append and len(blocks) < 2:
+                    continue
+                for k in range(len(blocks) - (1 if append else 0)):
                     for before_flush in (False, True):
                         n_exec += 1
                         p = os.path.join(d, "c." + fmt)
                         if os.path.exists(p):
                             os.remove(p)
-                        st, val = isolated(lambda: _write_history(p, fmt, traj, blocks, cell, True, crash_after=k,
-                                                                  crash_before_flush=before_flush), 60)
-                        rep = {"kind": "crash", "fmt": fmt, "cell": cell, "n": n, "blocks": blocks, "k": k,
-                               "before_flush": before_flush}
-                        want = sum(blocks[:k + 1])
+                        if append:
+                            b0 = blocks[0]
+                            _write_history(p, fmt, traj, [b0], cell, True)                 # session 1: written and closed
+                            st, val = isolated(lambda: _write_history(p, fmt, traj[b0:], blocks[1:], cell, True, mode="a",
+                                                                      crash_after=k, crash_before_flush=before_flush), 60)
+                            want = b0 + sum(blocks[1:k + 2])
+                        else:
+                            st, val = isolated(lambda: _write_history(p, fmt, traj, blocks, cell, True, crash_after=k,
+                                                                      crash_before_flush=before_flush), 60)
+                            want = sum(blocks[:k + 1])
+                        rep = {"kind": "crash", "fmt": fmt + ("-append" if append else ""), "cell": cell, "n": n, "blocks": blocks,
+                               "k": k, "before_flush": before_flush}
                         if st != "crash":
                             viol.append(("%s|crash|harness" % fmt, "child did not die by SIGKILL: %s %s" % (st, val), rep))
                             continue
@@ -286,7 +297,7 @@ def crash_job(args):
                             unjudged[key] = unjudged.get(key, 0) + 1
                             continue
                         if dif:
-                            viol.append(("%s|crash-after-flush|cell=%s|%s" % (fmt, cell, dif.split(":")[0].split(" ")[0]),
+                            viol.append(("%s|crash-after-flush|cell=%s|%s" % (rep["fmt"], cell, dif.split(":")[0].split(" ")[0]),
                                          "killed after write %d (+flush) of %s: expected %d frames on disk: %s" % (k + 1, blocks, want, dif), rep))
                         else:
                             ok += 1
@@ -312,7 +323,7 @@ def traj_loaded_prefix(fmt, traj, top, m, cell, d):
 def run(ctx):
     ns = [N] if ctx.quick else [1, 2, 3, 4, 5]
     jobs = [(f, c, t, ns, ctx.seed, ctx.scratch) for f, c, t in _fmt_jobs(ctx.quick)]
-    cjobs = [(f, c, ns, ctx.seed, ctx.scratch) for f in CRASH_FORMATS for c in (True, False)]
+    cjobs = [(f, c, ns, ctx.seed, ctx.scratch) for f in CRASH_FORMATS + ["h5-append"] for c in (True, False)]
     outs = ctx.pmap(incremental_job, jobs)
     couts = ctx.pmap(crash_job, cjobs)
     n_exec = ok = 0
@@ -401,15 +412,23 @@ def hist_one(ctx, rep):
 
 def crash_one(ctx, rep):
     from vlib.iso import isolated
-    fmt = rep["fmt"]
+    append = rep["fmt"].endswith("-append")
+    fmt = rep["fmt"].split("-")[0]
     traj = _traj(4, rep["cell"], ctx.seed)[:rep["n"]]
     d = os.path.join(ctx.scratch, "rpc")
     shutil.rmtree(d, ignore_errors=True)
     os.makedirs(d)
     p = os.path.join(d, "c." + fmt)
-    st, val = isolated(lambda: _write_history(p, fmt, traj, rep["blocks"], rep["cell"], True, crash_after=rep["k"],
-                                              crash_before_flush=rep["before_flush"]), 60)
-    want = sum(rep["blocks"][:rep["k"] + 1])
+    blocks = rep["blocks"]
+    if append:
+        _write_history(p, fmt, traj, blocks[:1], rep["cell"], True)
+        st, val = isolated(lambda: _write_history(p, fmt, traj[blocks[0]:], blocks[1:], rep["cell"], True, mode="a",
+                                                  crash_after=rep["k"], crash_before_flush=rep["before_flush"]), 60)
+        want = blocks[0] + sum(blocks[1:rep["k"] + 2])
+    else:
+        st, val = isolated(lambda: _write_history(p, fmt, traj, blocks, rep["cell"], True, crash_after=rep["k"],
+                                                  crash_before_flush=rep["before_flush"]), 60)
+        want = sum(blocks[:rep["k"] + 1])
     try:
         return _diff(_load(p, fmt, traj.topology), traj_loaded_prefix(fmt, traj, traj.topology, want, rep["cell"], d))
     except Exception as e:  # noqa
